@@ -25,6 +25,7 @@ def dispatch (line : String) : String :=
   | "C08" :: args => VtModel.PipeProto.handle args
   | "C09" :: args => VtModel.PipeProto.handle args
   | "C05" :: args => VtModel.Http.handle args
+  | "C19" :: args => VtModel.Decoders.handle args
   | "C03" :: args => VtModel.Coverage.handle args
   | "C03p" :: args => VtModel.PipeProto.handle args
   | s :: args => VtModel.Formats.handle s args   -- container-format streams (C16/C01); answers "bad-stream" itself
